@@ -37,6 +37,8 @@ class Monitor:
         self.eoi_hooks = []
         self.slice_end_hooks = []
         self.slice_begin_hooks = []
+        self.proc_hooks = []       # f(proc) when a process is created
+        self.can_hooks = []        # f(edge, op, result, exc) after edge.can_put()/can_get()
         self.call_hooks = []       # f(sh, info, result, exc) after every store API call
         self.precall_hooks = []    # f(sh, op, args) before every store API call
         self.instant_sig = {}      # sh -> list of (op, role) in the current instant
